@@ -339,9 +339,13 @@ def run(ctx):
                    "(empty/1 byte, equal-length, compressible text, 64 KiB compressible + 64 KiB random); B1: seeded random histories per "
                    "subject (put, put_batch, remove, remove_batch, get, get_batch, iter_ids, contains, size, len, clear, save->load / reopen, keyed "
                    "put/get/prefix; with deliberately placed read -> remove_batch -> read sequences; B2 removes go through remove_batch on every "
-                   "other history), fills of "
+                   "other history; maintenance calls (reserve, shrink_to_fit, optimize, validate, flush, prefetch, cache on/off, write strategy, "
+                   "finalize, offset cache), iter_blobs, load_dictionary; keyed runs with put_batch_with_keys, keys(), keys_with_prefix(), "
+                   "finalize; record lengths t-1/t/t+1 around the thresholds 8..8192 of the code, 64 KiB-1/64 KiB/64 KiB+1, 200 KiB and "
+                   "1 MiB; ids at the end of the id space), fills of "
                    "0..129 records, and bulk builds of 0,1,2,63..65,127..129,255..257,511..513 records x 6 record-length profiles for every "
-                   "builder-made store; every event validated by TLC against BlobStore.tla.  distinct = (subject, history, concretisation) executions of B2 plus "
+                   "builder-made store (builder twins add_records / add_batch / finish_with_progress / build_from_* incl. keyed builds with "
+                   "repeated keys, from_data with ids up to u32::MAX, save_to_file -> load_from_file); every event validated by TLC against BlobStore.tla.  distinct = (subject, history, concretisation) executions of B2 plus "
                    "(subject, run) pairs of B1, for subjects with at least one successful store and one successful read; subjects that never stored anything readable are listed as "
                    "vacuous and not counted.  exhaustive refers to the B2 history space." % ("4" if ctx.thorough else "3"))
     if b1files:
